@@ -182,3 +182,56 @@ Proof.
   repeat (progress (rewrite ?(cc_20 c Hc), ?(cc_10 c Hc), ?(cc_08 c Hc), ?E2, ?E3, ?E4; xstep)).
   eexists; split; reflexivity.
 Qed.
+
+(* ------------------------------------------------------------------ uc_beg (regex.c) *)
+Lemma cc_cont_re : forall c, (c < 256)%N -> (Z.land (Z.of_N c) 192 =? 128) = ReVM.is_cont c.
+Proof. byte_fact. Qed.
+
+Definition re_uc_beg_loop : stmt := match fn_body cf_re_uc_beg with SSeq w _ => w | _ => SSkip end.
+
+(* ReVM.uc_beg line i is the index, counted from beg, of the first byte of the character that contains byte i *)
+Lemma re_uc_beg_loop_ok call m b s ob : str_at m b s -> bytes_lt256 s ->
+  forall k o fuel, (o - ob = k)%nat -> (ob <= o <= length s)%nat -> (k < fuel)%nat ->
+  exec call fuel re_uc_beg_loop (mkst [VPtr b (Z.of_nat ob); VPtr b (Z.of_nat o)] m)
+  = ONormal (mkst [VPtr b (Z.of_nat ob); VPtr b (Z.of_nat (ob + ReVM.uc_beg (skipn ob s) k))] m).
+Proof.
+  intros Hs H256. induction k as [|k IH]; intros o fuel Hk Ho Hf; (destruct fuel as [|fuel]; [lia|]);
+    unfold re_uc_beg_loop; cbn [fn_body cf_re_uc_beg]; rewrite exec_while; xstep; cbn [ptr_cmp Nat.eqb]; rewrite Nat.eqb_refl; xstep.
+  - assert (o = ob) as -> by lia. cbn [ReVM.uc_beg]. rewrite Nat.add_0_r.
+    destruct (Z.ltb_spec (Z.of_nat ob) (Z.of_nat ob)); [lia|]. reflexivity.
+  - destruct (Z.ltb_spec (Z.of_nat ob) (Z.of_nat o)); [|lia]. xstep.
+    xload Hs H256 o. rewrite (cc_cont_re _ (nthb_lt256 s o H256)).
+    cbn [ReVM.uc_beg]. rewrite nthb_skipn. replace (ob + S k)%nat with o by lia.
+    destruct (ReVM.is_cont (nthb s o)); xstep; [|repeat f_equal; lia].
+    replace (Z.of_nat o + -1) with (Z.of_nat (o - 1)) by lia.
+    change (SWhile _ _) with re_uc_beg_loop. rewrite (IH (o - 1)%nat fuel) by lia. reflexivity.
+Qed.
+
+Theorem tr_re_uc_beg m b s ob o d fuel :
+  str_at m b s -> bytes_lt256 s -> (ob <= o <= length s)%nat -> (length s < fuel)%nat ->
+  callf cprog fuel (S d) F_re_uc_beg [VPtr b (Z.of_nat ob); VPtr b (Z.of_nat o)] m
+  = Ok (VPtr b (Z.of_nat (ob + ReVM.uc_beg (skipn ob s) (o - ob))), m).
+Proof.
+  intros Hs H256 Ho Hf. enter F_re_uc_beg cf_re_uc_beg. xstep.
+  change (SWhile _ _) with re_uc_beg_loop.
+  rewrite (re_uc_beg_loop_ok _ m b s ob Hs H256 _ o fuel eq_refl) by lia. xstep. reflexivity.
+Qed.
+(* the form the matcher uses: beg = the start of the line *)
+Corollary tr_re_uc_beg_line m b s o d fuel :
+  str_at m b s -> bytes_lt256 s -> (o <= length s)%nat -> (length s < fuel)%nat ->
+  callf cprog fuel (S d) F_re_uc_beg [VPtr b 0; VPtr b (Z.of_nat o)] m
+  = Ok (VPtr b (Z.of_nat (ReVM.uc_beg s o)), m).
+Proof.
+  intros Hs H256 Ho Hf. pose proof (tr_re_uc_beg m b s 0 o d fuel Hs H256 ltac:(lia) Hf) as T.
+  cbn [skipn Z.of_nat Nat.add] in T. rewrite Nat.sub_0_r in T. exact T.
+Qed.
+
+(* ------------------------------------------------------------------ isword (regex.c) *)
+Theorem tr_re_isword m b s o d fuel : str_at m b s -> bytes_lt256 s -> (o <= length s)%nat ->
+  callf cprog fuel (S d) F_re_isword [VPtr b (Z.of_nat o)] m = Ok (VInt (b2z (ReVM.isword (nthb s o))), m).
+Proof.
+  intros Hs H256 Ho. enter F_re_isword cf_re_isword. xstep.
+  replace (Z.of_nat o + 1 * 0) with (Z.of_nat o) by lia. xload Hs H256 o.
+  pose proof (nthb_lt256 s o H256) as Hc. generalize dependent (nthb s o). intros c Hc.
+  sweep_byte c Hc.
+Qed.
